@@ -1500,9 +1500,10 @@ impl AllowedRange {
     }
 
     #[must_use]
-    /// Return true if the value is present in the allowed range.
+    /// Return true if the value is present in the allowed range. A `max` of `i64::MAX` (as used
+    /// by `no_check`) means that there's no upper limit.
     pub fn contains(&self, value: i64) -> bool {
-        self.min <= value && value < self.max
+        self.min <= value && (value < self.max || self.max == i64::MAX)
     }
 
     /// Returns how far we're outside the allowed range.
